@@ -1,65 +1,65 @@
-// REPLAY for property C09, harness k_with_params_flags (unit K-def-flags, engine kani)
+// REPLAY for property C02, harness k_normal_early_return_keeps_lazy_state (unit K-normal-early, engine kani)
 // Failed obligations:
-//   OBL:with_params.window_bits_clamped [C11 C09]  at miniz_oxide/src/deflate/core.rs:2936:9 in function deflate::core::verif_deflate_core::k_with_params_flags
+//   OBL:normalearly.saved_literal_is_the_skipped_byte [C02 C01]  at miniz_oxide/src/deflate/core.rs:4022:13 in function deflate::core::verif_deflate_core::k_normal_early_return_keeps_lazy_state
 // no-failing-input-found: the verifier reported the failed obligation without a concrete model.
 // Verifier output (tail):
-//   Check 624: __rust_realloc.precondition_instance.2
+//   Check 1540: __rust_realloc.precondition_instance.2
 //   	 - Status: SUCCESS
 //   	 - Description: "memcpy source region readable"
 //   	 - Location: ../../../../../root/.kani/kani-0.68.0/library/kani/kani_lib.c:114 in function __rust_realloc
 //   
-//   Check 625: __rust_realloc.precondition_instance.3
+//   Check 1541: __rust_realloc.precondition_instance.3
 //   	 - Status: SUCCESS
 //   	 - Description: "memcpy destination region writeable"
 //   	 - Location: ../../../../../root/.kani/kani-0.68.0/library/kani/kani_lib.c:114 in function __rust_realloc
 //   
-//   Check 626: __rust_realloc.precondition_instance.4
+//   Check 1542: __rust_realloc.precondition_instance.4
 //   	 - Status: SUCCESS
 //   	 - Description: "free argument must be NULL or valid pointer"
 //   	 - Location: ../../../../../root/.kani/kani-0.68.0/library/kani/kani_lib.c:115 in function __rust_realloc
 //   
-//   Check 627: __rust_realloc.precondition_instance.5
+//   Check 1543: __rust_realloc.precondition_instance.5
 //   	 - Status: SUCCESS
 //   	 - Description: "free argument must be dynamic object"
 //   	 - Location: ../../../../../root/.kani/kani-0.68.0/library/kani/kani_lib.c:115 in function __rust_realloc
 //   
-//   Check 628: __rust_realloc.precondition_instance.6
+//   Check 1544: __rust_realloc.precondition_instance.6
 //   	 - Status: SUCCESS
 //   	 - Description: "free argument has offset zero"
 //   	 - Location: ../../../../../root/.kani/kani-0.68.0/library/kani/kani_lib.c:115 in function __rust_realloc
 //   
-//   Check 629: __rust_realloc.precondition_instance.7
+//   Check 1545: __rust_realloc.precondition_instance.7
 //   	 - Status: SUCCESS
 //   	 - Description: "double free"
 //   	 - Location: ../../../../../root/.kani/kani-0.68.0/library/kani/kani_lib.c:115 in function __rust_realloc
 //   
-//   Check 630: __rust_realloc.precondition_instance.8
+//   Check 1546: __rust_realloc.precondition_instance.8
 //   	 - Status: SUCCESS
 //   	 - Description: "free called for new[] object"
 //   	 - Location: ../../../../../root/.kani/kani-0.68.0/library/kani/kani_lib.c:115 in function __rust_realloc
 //   
-//   Check 631: __rust_realloc.precondition_instance.9
+//   Check 1547: __rust_realloc.precondition_instance.9
 //   	 - Status: SUCCESS
 //   	 - Description: "free called for stack-allocated object"
 //   	 - Location: ../../../../../root/.kani/kani-0.68.0/library/kani/kani_lib.c:115 in function __rust_realloc
 //   
-//   Check 632: calloc.pointer_dereference.1
+//   Check 1548: calloc.pointer_dereference.1
 //   	 - Status: SUCCESS
 //   	 - Description: "dereference failure: dead object"
 //   	 - Location: <builtin-library-calloc>:14 in function calloc
 //   
 //   
 //   SUMMARY:
-//    ** 1 of 630 failed (8 unreachable)
+//    ** 1 of 1546 failed (34 unreachable)
 //   
-//    ** 1 of 2 cover properties satisfied
+//    ** 2 of 2 cover properties satisfied
 //   
-//   Failed Checks: "OBL:with_params.window_bits_clamped [C11 C09]"
-//    File: "miniz_oxide/src/deflate/core.rs", line 2936, in deflate::core::verif_deflate_core::k_with_params_flags
+//   Failed Checks: "OBL:normalearly.saved_literal_is_the_skipped_byte [C02 C01]"
+//    File: "miniz_oxide/src/deflate/core.rs", line 4022, in deflate::core::verif_deflate_core::k_normal_early_return_keeps_lazy_state
 //   
 //   VERIFICATION:- FAILED
-//   Verification Time: 35.2002s
+//   Verification Time: 94.219505s
 //   
 //   Manual Harness Summary:
-//   Verification failed for - deflate::core::verif_deflate_core::k_with_params_flags
+//   Verification failed for - deflate::core::verif_deflate_core::k_normal_early_return_keeps_lazy_state
 //   Complete - 0 successfully verified harnesses, 1 failures, 1 total.
